@@ -139,3 +139,94 @@ pub fn check_c04(tier: Tier) -> i32 {
     );
     verdict.exit
 }
+
+fn get(acc: &Acc, k: &str) -> u64 {
+    acc.counters.get(k).cloned().unwrap_or(0)
+}
+
+pub fn check_c03(tier: Tier) -> i32 {
+    let t0 = Instant::now();
+    let seed = orch::seed_from_env();
+    let heap = orch::engine("heap-sim").unwrap();
+    let gc = orch::engine("gc-sim").unwrap();
+    let (nh, ng) = ((heap.scenarios)(tier), (gc.scenarios)(tier));
+    println!("C03 heap-sim + gc-sim: seed {} tier {} scenarios {} + {}", seed, tier.name(), nh, ng);
+    let bh = orch::run_engine(&heap, seed, tier, nh, orch::WORKERS);
+    let bg = orch::run_engine(&gc, seed, tier, ng, orch::WORKERS);
+    let mut harness_errors = bh.harness_errors.clone();
+    harness_errors.extend(bg.harness_errors.clone());
+    let mut selftest = 0;
+    if bh.violations.is_empty() && bg.violations.is_empty() && harness_errors.is_empty() {
+        for (e, b, n) in [(&heap, &bh, 32u64), (&gc, &bg, 256u64)] {
+            match determinism_selftest(e, seed, tier, b, n) {
+                Ok(n) => selftest += n,
+                Err(m) => harness_errors.push(m),
+            }
+        }
+    }
+    let mut violations = bh.violations.clone();
+    violations.extend(bg.violations.clone());
+    let nviol = violations.len();
+    let verdict = orch::conclude("C03", violations, &harness_errors);
+    let wall = t0.elapsed().as_secs_f64();
+    let (ah, ag) = (&bh.acc, &bg.acc);
+    let runs = get(ah, "runs") + get(ag, "gc_sequences");
+    let nontrivial = ah.distinct.get("nontrivial_cases").map(|s| s.len()).unwrap_or(0)
+        + ag.distinct.get("nontrivial_cases").map(|s| s.len()).unwrap_or(0);
+    let mut samples = ah.samples.clone();
+    samples.truncate(3);
+    samples.extend(ag.samples.iter().take(2).cloned());
+    let mut warnings: Vec<String> = Vec::new();
+    for p in ["probe_collection_with_cyclic_array_live", "probe_collection_with_shared_object_live", "fault_extra_collection", "fault_allocator_realloc_moved", "collections_with_live_heap"] {
+        if get(ah, p) == 0 {
+            warnings.push(format!("probe {} stayed at zero", p));
+        }
+    }
+    for w in &warnings {
+        println!("WARNING: {}", w);
+    }
+    let ev = json!({
+        "property_id": "C03",
+        "tier": tier.name(),
+        "seed": seed,
+        "level": "exploration",
+        "coverage": {
+            "evaluations": runs,
+            "distinct_nontrivial": nontrivial,
+            "rule": "(a) heap-sim: seeded generator of heap-heavy programs (floats, strings, nested/aliased/cyclic arrays, functions, recursion, calls nested in array literals); each program is run under the shipped collection schedule with the plain allocator and under 3-5 seeded variants of (collection schedule: shipped / extra collections at seeded instruction boundaries / a collection at EVERY instruction boundary) x (allocator: plain / poison-and-park freed blocks / every realloc moves); monitored: every dereference hits a live shadow entry, no double release, after every collection reachable(true roots read from the VM) is a subset of alive and every survivor is unchanged; afterwards the outcome digest must equal the shipped+plain one. A run is non-trivial when at least one collection ran while a heap object was reachable; distinct = distinct event-log hash. (b) gc-sim: seeded operation sequences (<=60 ops, <=16 objects: allocate float/string/array, link/unlink element, add/drop root, collect with the roots split into 1-4 slices with duplicates and immediates, hand over to caller (untrace), caller releases, adopt an object made by another collector, drop the collector) against a reachability model; after every operation shadow alive set == model alive set exactly, managed list == model managed set, values intact. Non-trivial: at least one collection with more than one object.",
+            "samples": samples,
+            "exhaustive": false,
+            "programs": get(ah, "programs"),
+            "heap_sim_runs": get(ah, "runs"),
+            "gc_sim_sequences": get(ag, "gc_sequences"),
+            "gc_sim_operations": get(ag, "gc_operations"),
+            "simulated_steps": get(ah, "sim_steps"),
+            "runs_per_hour": (runs as f64 / wall * 3600.0) as u64,
+            "seeds_per_hour": ((get(ah, "programs") + get(ag, "gc_sequences")) as f64 / wall * 3600.0) as u64,
+            "faults_fired": {"heap_sim": faults_json(ah), "gc_sim_operations": ag.counters.iter().filter(|(k, _)| k.starts_with("gc_op:")).map(|(k, v)| (k.clone(), json!(v))).collect::<serde_json::Map<String, Value>>()},
+            "probes": probes_json(ah),
+            "distinct_states": {"heap_sim": distinct_json(ah), "gc_sim": distinct_json(ag)},
+            "distinct_state_measure": "heap_shapes_at_collection = canonical shape hash of the reachable graph (types, edges, sharing, cycles) x opcode preceding the collection; gc_reachable_shapes_at_collection = shape of the model's reachable graph x ownership x root count",
+            "counters": {"heap_sim": counters_json(ah), "gc_sim": counters_json(ag)},
+            "determinism_selftest_scenarios_compared": selftest,
+            "components": orch::components(),
+            "warnings": warnings,
+            "candidate_violations": nviol,
+            "known_findings_matched": verdict.known,
+        },
+        "assumptions": [
+            "between two instructions everything live is on the operand stack, in the globals, in the constant pool or in the last-statement value (so an injected collection at an instruction boundary is legal); validated: the every-step schedule is silent on the repaired collector",
+            "gc-sim never creates an edge from a caller-owned array to a collector-managed object: handing an array over transfers responsibility for what is stored into it afterwards",
+            "the perturbing allocator modes cannot change the behaviour of code that never reads freed memory"
+        ],
+        "wall_s": wall,
+        "violations": verdict.reported,
+    });
+    orch::write_evidence("C03", &ev);
+    println!(
+        "C03: {} programs / {} runs / {} steps (heap-sim), {} sequences / {} ops / {} collections (gc-sim), {} distinct non-trivial, {} violation(s), {} known, {:.1}s",
+        get(ah, "programs"), get(ah, "runs"), get(ah, "sim_steps"), get(ag, "gc_sequences"), get(ag, "gc_operations"), get(ag, "gc_collections"),
+        nontrivial, verdict.reported, verdict.known, wall
+    );
+    verdict.exit
+}
